@@ -1,13 +1,848 @@
-//! C05 seeds, field inventory and entry points for "adt" (stub: not built yet).
-use crate::seed::{Aux, Seed};
-use crate::worker::Runner;
+//! C05 seeds, field inventory and entry point for ADT terrain files (wow_adt::parse_adt).
+//!
+//! Root seeds are produced by the crate's own `AdtBuilder` / `BuiltAdt::to_bytes` (serializer.rs)
+//! from a full 16x16 grid of MCNK chunks: most are small (MCVT, MCNR, one MCLY layer), the chunks
+//! 0, 1, 17, 100 and 255 carry every sub-chunk the serializer can write (four texture layers with
+//! alpha maps, MCRF, MCSH, MCLQ or MH2O water, MCCV, MCSE, MCLV, MCMT / MCDD / MCBB for MoP).
+//! The library has no writer for the Cataclysm+ split files; they are derived from builder output
+//! by re-arranging whole chunks (no payload byte is invented except the 4-byte MCMT):
+//!   * split root  = builder output without MCIN / MTEX / MMDX / MMID / MWMO / MWID / MDDF / MODF /
+//!                   MTXF / MAMP, the MHDR offsets recomputed;
+//!   * _tex0       = MVER, MAMP, MTXP, MTEX + one header-less MCNK per tile holding the MCLY / MCAL /
+//!                   MCSH chunks of the monolithic file (+ MCMT);
+//!   * _obj0       = MVER, MMDX, MMID, MWMO, MWID, MDDF, MODF + one header-less MCNK per tile holding
+//!                   the MCRF reference list split into MCRD / MCRW.
+//! NOTE on this crate's MCNK header: it is 136 bytes (128 of the file format + 8 trailing padding
+//! bytes), written and read consistently by serializer.rs and header.rs; sub-chunks of a root MCNK
+//! therefore start at MCNK+8+136. Header offsets are relative to the start of the MCNK chunk
+//! (its tag). Tags are stored reversed on disk ("REVM").
+use crate::seed::{walk_chunks, Aux, ChunkSeq, Seed};
+use crate::worker::{errname, Runner};
+use std::io::Cursor;
+use wow_adt::chunks::blend_mesh::{MbbbChunk, MbbbEntry, MbmhChunk, MbmhEntry, MbmiChunk, MbnvChunk, MbnvVertex};
+use wow_adt::chunks::mcnk::{
+    BlendBatch, LiquidType, LiquidVertex, McalChunk, McbbChunk, MccvChunk, McddChunk, MclqChunk, MclvChunk, MclyChunk,
+    MclyFlags, MclyLayer, McmtChunk, McnkChunk, McnkFlags, McnkHeader, McnrChunk, McrfChunk, McseChunk, McshChunk,
+    McvtChunk, SoundEmitter,
+};
+use wow_adt::chunks::mh2o::{
+    DepthOnlyVertex, HeightDepthVertex, HeightUvDepthVertex, HeightUvVertex, Mh2oAttributes, Mh2oChunk, Mh2oEntry,
+    Mh2oHeader, Mh2oInstance, UvMapEntry, VertexDataArray,
+};
+use wow_adt::chunks::{MampChunk, MfboChunk, MtxfChunk, MtxpChunk, TextureHeightParams};
+use wow_adt::{AdtBuilder, AdtVersion, DoodadPlacement, WmoPlacement};
 
-pub fn seed_names(_thorough: bool) -> Vec<String> {
-    Vec::new()
+pub fn seed_names(thorough: bool) -> Vec<String> {
+    let mut v = vec!["tbc-root-mclq".to_string(), "wotlk-root-mh2o".to_string()];
+    if thorough {
+        v.push("vanilla-root".into());
+        v.push("mop-root".into());
+        v.push("cata-split-root".into());
+        v.push("mop-tex0".into());
+        v.push("cata-obj0".into());
+    }
+    v
+}
+
+// ---------------------------------------------------------------------------------------------
+// model
+// ---------------------------------------------------------------------------------------------
+
+#[derive(Clone, Copy)]
+struct Spec {
+    version: AdtVersion,
+    mccv: bool,
+    mclq: bool,
+    mfbo: bool,
+    mh2o: bool,
+    mtxf: bool,
+    mamp: bool,
+    mtxp: bool,
+    blend: bool,
+    mclv: bool,
+    /// only the sub-chunks that stay in a Cataclysm+ root file
+    split_root: bool,
+}
+
+fn spec(name: &str) -> Spec {
+    let base = Spec {
+        version: AdtVersion::VanillaEarly,
+        mccv: false,
+        mclq: false,
+        mfbo: false,
+        mh2o: false,
+        mtxf: false,
+        mamp: false,
+        mtxp: false,
+        blend: false,
+        mclv: false,
+        split_root: false,
+    };
+    match name {
+        "vanilla-root" => Spec { version: AdtVersion::VanillaLate, mccv: true, mclq: true, ..base },
+        "tbc-root-mclq" => Spec { version: AdtVersion::TBC, mccv: true, mclq: true, mfbo: true, ..base },
+        "wotlk-root-mh2o" => Spec { version: AdtVersion::WotLK, mccv: true, mfbo: true, mh2o: true, mtxf: true, ..base },
+        "mop-root" | "mop-tex0" => Spec {
+            version: AdtVersion::MoP,
+            mccv: true,
+            mfbo: true,
+            mh2o: true,
+            mtxf: true,
+            mamp: true,
+            mtxp: true,
+            blend: true,
+            mclv: true,
+            ..base
+        },
+        "cata-obj0" => Spec { version: AdtVersion::Cataclysm, mccv: true, mtxf: true, mamp: true, ..base },
+        "cata-split-root" => Spec {
+            version: AdtVersion::Cataclysm,
+            mccv: true,
+            mfbo: true,
+            mh2o: true,
+            mtxf: true,
+            mamp: true,
+            mclv: true,
+            split_root: true,
+            ..base
+        },
+        _ => wverif_common::tool_error(&format!("adt: unknown seed {name}")),
+    }
+}
+
+const RICH: [usize; 5] = [0, 1, 17, 100, 255];
+const TEXTURES: [&str; 4] =
+    ["tileset/elwynn/elwynngrassbase.blp", "tileset/elwynn/elwynndirtbase.blp", "tileset/generic/black.blp", "t/r.blp"];
+const MODELS: [&str; 3] =
+    ["world/azeroth/elwynn/passivedoodads/trees/elwynntreecanopy01.m2", "world/generic/human/passive doodads/crates/crate01.m2", "a.m2"];
+const WMOS: [&str; 2] = ["world/wmo/azeroth/buildings/human_farm/farm.wmo", "world/wmo/dungeon/cave.wmo"];
+
+fn mcnk(i: usize, sp: &Spec) -> McnkChunk {
+    let rich = RICH.contains(&i);
+    let (x, y) = ((i % 16) as u32, (i / 16) as u32);
+    let mut flags = 0u32;
+    let heights = McvtChunk { heights: (0..145).map(|k| (i as f32) * 0.5 + (k % 17) as f32 * 0.25).collect() };
+    let tex_side = !sp.split_root;
+    let mut layers = None;
+    let mut alpha = None;
+    let mut shadow = None;
+    let mut refs = None;
+    let (mut n_doodad_refs, mut n_map_obj_refs) = (0u32, 0u32);
+    if tex_side {
+        if rich {
+            let nl = if i == 1 { 2 } else { 4 };
+            layers = Some(MclyChunk {
+                layers: (0..nl)
+                    .map(|l| MclyLayer {
+                        texture_id: l as u32,
+                        flags: MclyFlags { value: if l == 0 { 0 } else { 0x100 } },
+                        offset_in_mcal: if l == 0 { 0 } else { 2048 * (l as u32 - 1) },
+                        effect_id: if l == 3 { 0xFFFF_FFFF } else { l as u32 },
+                    })
+                    .collect(),
+            });
+            let an = 2048 * (nl - 1);
+            alpha = Some(McalChunk { data: (0..an).map(|k| ((k * 7 + i) % 256) as u8).collect() });
+            shadow = Some(McshChunk { shadow_map: (0..512).map(|k| if k % 3 == 0 { 0xFF } else { 0x0F }).collect() });
+            flags |= 0x01;
+            refs = Some(McrfChunk { references: vec![0, 2, 1, 0] });
+            n_doodad_refs = 3;
+            n_map_obj_refs = 1;
+        } else {
+            layers = Some(MclyChunk { layers: vec![MclyLayer { texture_id: (i % 4) as u32, flags: MclyFlags { value: 0 }, offset_in_mcal: 0, effect_id: 0 }] });
+        }
+    }
+    let liquid = if sp.mclq && rich && i != 1 {
+        flags |= if i == 17 { 0x10 } else { 0x04 };
+        Some(MclqChunk {
+            min_height: -2.0,
+            max_height: 6.5,
+            vertices: (0..81).map(|k| LiquidVertex { union_data: [k as u8, 0, 0, 255], height: 1.0 + (k % 9) as f32 * 0.5 }).collect(),
+            tile_flags: [0x04; 64],
+            liquid_type: if i == 17 { LiquidType::Magma } else { LiquidType::Water },
+        })
+    } else {
+        None
+    };
+    let vertex_colors = if sp.mccv {
+        flags |= 0x40;
+        Some(MccvChunk::default())
+    } else {
+        None
+    };
+    let sound_emitters = if rich {
+        Some(McseChunk {
+            emitters: (0..2u32)
+                .map(|k| SoundEmitter { sound_entry_id: 3000 + k, position: [x as f32 * 33.3, y as f32 * 33.3, 5.0], size_min: [4.0, 4.0, 8.0], _padding: [] })
+                .collect(),
+        })
+    } else {
+        None
+    };
+    let vertex_lighting = if sp.mclv && rich { Some(MclvChunk { colors: vec![0xFF40_6080; 145] }) } else { None };
+    let mop_extras = sp.version == AdtVersion::MoP && rich && !sp.split_root;
+    let header = McnkHeader {
+        flags: McnkFlags { value: flags },
+        index_x: x,
+        index_y: y,
+        n_layers: 0,
+        n_doodad_refs,
+        multipurpose_field: McnkHeader::multipurpose_from_offsets(0, 0),
+        ofs_layer: 0,
+        ofs_refs: 0,
+        ofs_alpha: 0,
+        size_alpha: 0,
+        ofs_shadow: 0,
+        size_shadow: 0,
+        area_id: 12 + (i as u32 % 3),
+        n_map_obj_refs,
+        holes_low_res: if i == 100 { 0x0660 } else { 0 },
+        unknown_but_used: 1,
+        pred_tex: [0x1B; 8],
+        no_effect_doodad: [0; 8],
+        unknown_8bytes: [0; 8],
+        ofs_snd_emitters: 0,
+        n_snd_emitters: 0,
+        ofs_liquid: 0,
+        size_liquid: 0,
+        position: [17066.0 - y as f32 * 33.33, 17066.0 - x as f32 * 33.33, 0.0],
+        ofs_mccv: 0,
+        ofs_mclv: 0,
+        unused: 0,
+        _padding: [0; 8],
+    };
+    McnkChunk {
+        header,
+        heights: Some(heights),
+        normals: Some(McnrChunk::default()),
+        layers,
+        materials: if mop_extras { Some(McmtChunk { material_ids: [1, 2, 0, 0] }) } else { None },
+        refs,
+        doodad_refs: None,
+        wmo_refs: None,
+        alpha,
+        shadow,
+        vertex_colors,
+        vertex_lighting,
+        sound_emitters,
+        liquid,
+        doodad_disable: if mop_extras { Some(McddChunk::default()) } else { None },
+        blend_batches: if mop_extras {
+            Some(McbbChunk { batches: vec![BlendBatch { mbmh_index: 0, index_count: 3, index_first: 0, vertex_count: 3, vertex_first: 0 }] })
+        } else {
+            None
+        },
+    }
+}
+
+fn water() -> Mh2oChunk {
+    let mut c = Mh2oChunk::new();
+    let inst = |lt: u16, lvf: u16, xo: u8, yo: u8, w: u8, h: u8| Mh2oInstance {
+        liquid_type: lt,
+        liquid_object_or_lvf: lvf,
+        min_height_level: 10.0,
+        max_height_level: 14.0,
+        x_offset: xo,
+        y_offset: yo,
+        width: w,
+        height: h,
+        offset_exists_bitmap: 0,
+        offset_vertex_data: 0,
+    };
+    let hdr = Mh2oHeader { offset_instances: 0, layer_count: 1, offset_attributes: 0 };
+    // entry 0: LVF 0 (height + depth), 3x3 tiles at (1,2), with a bitmap and attributes
+    {
+        let i0 = inst(5, 0, 1, 2, 3, 3);
+        let mut g: Box<[Option<HeightDepthVertex>; 81]> = Box::new([None; 81]);
+        for z in 2..=5usize {
+            for x in 1..=4usize {
+                g[z * 9 + x] = Some(HeightDepthVertex { height: 10.0 + (x + z) as f32 * 0.1, depth: (x * z) as u8 });
+            }
+        }
+        c.entries[0] = Mh2oEntry {
+            header: hdr,
+            instances: vec![i0],
+            vertex_data: vec![Some(VertexDataArray::HeightDepth(g))],
+            exists_bitmaps: vec![Some(0x1EF)],
+            attributes: Some(Mh2oAttributes { fishable: 0x0000_0000_0E0E_0E00, deep: 0x0000_0000_0004_0000 }),
+        };
+    }
+    // entry 1: two layers: LVF 1 (height + uv) 2x2 and a flat full-tile layer without vertex data
+    {
+        let i0 = inst(2, 1, 0, 0, 2, 2);
+        let mut g: Box<[Option<HeightUvVertex>; 81]> = Box::new([None; 81]);
+        for z in 0..=2usize {
+            for x in 0..=2usize {
+                g[z * 9 + x] = Some(HeightUvVertex { height: 12.0, uv: UvMapEntry { u: (x * 100) as u16, v: (z * 100) as u16 } });
+            }
+        }
+        let i1 = inst(14, 2, 0, 0, 8, 8);
+        c.entries[1] = Mh2oEntry {
+            header: Mh2oHeader { layer_count: 2, ..hdr },
+            instances: vec![i0, i1],
+            vertex_data: vec![Some(VertexDataArray::HeightUv(g)), None],
+            exists_bitmaps: vec![Some(0xF), None],
+            attributes: None,
+        };
+    }
+    // entry 17: LVF 2 (depth only) 1x1 at (7,7)
+    {
+        let i0 = inst(2, 2, 7, 7, 1, 1);
+        let mut g: Box<[Option<DepthOnlyVertex>; 81]> = Box::new([None; 81]);
+        for z in 7..=8usize {
+            for x in 7..=8usize {
+                g[z * 9 + x] = Some(DepthOnlyVertex { depth: (x + z) as u8 });
+            }
+        }
+        c.entries[17] = Mh2oEntry {
+            header: hdr,
+            instances: vec![i0],
+            vertex_data: vec![Some(VertexDataArray::DepthOnly(g))],
+            exists_bitmaps: vec![None],
+            attributes: Some(Mh2oAttributes { fishable: u64::MAX, deep: 0 }),
+        };
+    }
+    // entry 255: LVF 3 (height + uv + depth) 2x1
+    {
+        let i0 = inst(19, 3, 3, 4, 2, 1);
+        let mut g: Box<[Option<HeightUvDepthVertex>; 81]> = Box::new([None; 81]);
+        for z in 4..=5usize {
+            for x in 3..=5usize {
+                g[z * 9 + x] = Some(HeightUvDepthVertex { height: 11.0, uv: UvMapEntry { u: 7, v: 9 }, depth: 200 });
+            }
+        }
+        c.entries[255] = Mh2oEntry {
+            header: hdr,
+            instances: vec![i0],
+            vertex_data: vec![Some(VertexDataArray::HeightUvDepth(g))],
+            exists_bitmaps: vec![Some(0x3)],
+            attributes: None,
+        };
+    }
+    c
+}
+
+fn monolithic(sp: &Spec) -> Vec<u8> {
+    let mut b = AdtBuilder::new().with_version(sp.version).add_textures(TEXTURES.to_vec());
+    for m in MODELS {
+        b = b.add_model(m);
+    }
+    for w in WMOS {
+        b = b.add_wmo(w);
+    }
+    for k in 0..3u32 {
+        b = b.add_doodad_placement(DoodadPlacement {
+            name_id: k,
+            unique_id: 5000 + k,
+            position: [17000.0 + k as f32, 40.0, 17010.0],
+            rotation: [0.0, 45.0 * k as f32, 0.0],
+            scale: 1024,
+            flags: k as u16,
+        });
+    }
+    for k in 0..2u32 {
+        b = b.add_wmo_placement(WmoPlacement {
+            name_id: k,
+            unique_id: 9000 + k,
+            position: [16900.0, 35.0, 16950.0 + k as f32],
+            rotation: [0.0, 90.0, 0.0],
+            extents_min: [16880.0, 30.0, 16930.0],
+            extents_max: [16920.0, 60.0, 16970.0],
+            flags: 0,
+            doodad_set: k as u16,
+            name_set: 0,
+            scale: 1024,
+        });
+    }
+    for i in 0..256 {
+        b = b.add_mcnk_chunk(mcnk(i, sp));
+    }
+    if sp.mfbo {
+        b = b.add_flight_bounds(MfboChunk { max_plane: [500, 510, 520, 500, 510, 520, 500, 510, 520], min_plane: [-100; 9] });
+    }
+    if sp.mh2o {
+        b = b.add_water_data(water());
+    }
+    if sp.mtxf {
+        b = b.add_texture_flags(MtxfChunk { flags: vec![0, 1, 0, 2] });
+    }
+    if sp.mamp {
+        b = b.add_texture_amplifier(MampChunk { amplifier: 2 });
+    }
+    if sp.mtxp {
+        b = b.add_texture_params(MtxpChunk {
+            entries: (0..4u32).map(|k| TextureHeightParams { flags: k, height_scale: 1.0 + k as f32, height_offset: 0.5, padding: 0 }).collect(),
+        });
+    }
+    if sp.blend {
+        b = b
+            .add_blend_mesh_headers(MbmhChunk {
+                entries: vec![MbmhEntry { map_object_id: 9000, texture_id: 2, unknown: 0, mbmi_count: 3, mbnv_count: 3, mbmi_start: 0, mbnv_start: 0 }],
+            })
+            .add_blend_mesh_bounds(MbbbChunk { entries: vec![MbbbEntry { map_object_id: 9000, min: [-10.0, -10.0, 0.0], max: [10.0, 10.0, 5.0] }] })
+            .add_blend_mesh_vertices(MbnvChunk {
+                vertices: (0..3)
+                    .map(|k| MbnvVertex { position: [k as f32 * 5.0, (k % 2) as f32 * 10.0, 0.0], normal: [0.0, 0.0, 1.0], uv: [k as f32 * 0.5, 0.0], color: [[255, 255, 255, 255]; 3] })
+                    .collect(),
+            })
+            .add_blend_mesh_indices(MbmiChunk { indices: vec![0, 1, 2] });
+    }
+    let built = b.build().expect("AdtBuilder::build");
+    built.to_bytes().expect("BuiltAdt::to_bytes")
+}
+
+// ---------------------------------------------------------------------------------------------
+// byte helpers and the derived split files
+// ---------------------------------------------------------------------------------------------
+
+fn u32_at(b: &[u8], o: usize) -> u32 {
+    u32::from_le_bytes([b[o], b[o + 1], b[o + 2], b[o + 3]])
+}
+
+fn put32(b: &mut [u8], o: usize, v: u32) {
+    b[o..o + 4].copy_from_slice(&v.to_le_bytes());
+}
+
+fn rtag(b: &[u8], o: usize) -> String {
+    b[o..o + 4].iter().rev().map(|&c| if c.is_ascii_graphic() { c as char } else { '?' }).collect()
+}
+
+fn chunk(tag: &str, payload: &[u8]) -> Vec<u8> {
+    let mut v: Vec<u8> = tag.bytes().rev().collect();
+    v.extend_from_slice(&(payload.len() as u32).to_le_bytes());
+    v.extend_from_slice(payload);
+    v
+}
+
+const MCNK_HDR: usize = 136;
+
+/// (offset, total, tag) of the top-level chunks; the builder output must tile the file.
+fn top_chunks(b: &[u8]) -> Vec<(usize, usize, String)> {
+    let v: Vec<(usize, usize, String)> = walk_chunks(b, 0, b.len()).into_iter().map(|(o, t)| (o, t, rtag(b, o))).collect();
+    assert_eq!(v.last().map(|c| c.0 + c.1), Some(b.len()), "adt: chunks do not tile the file");
+    v
+}
+
+fn split_root(mono: &[u8]) -> Vec<u8> {
+    let drop = ["MCIN", "MTEX", "MMDX", "MMID", "MWMO", "MWID", "MDDF", "MODF", "MTXF", "MAMP"];
+    let mut out = Vec::new();
+    let mut mhdr = 0usize;
+    let (mut mfbo, mut mh2o) = (0usize, 0usize);
+    for (o, t, tag) in top_chunks(mono) {
+        if drop.contains(&tag.as_str()) {
+            continue;
+        }
+        match tag.as_str() {
+            "MHDR" => mhdr = out.len(),
+            "MFBO" => mfbo = out.len(),
+            "MH2O" => mh2o = out.len(),
+            _ => {}
+        }
+        out.extend_from_slice(&mono[o..o + t]);
+    }
+    let p = mhdr + 8;
+    let flags = u32_at(&out, p);
+    for k in 0..16 {
+        put32(&mut out, p + 4 * k, 0);
+    }
+    put32(&mut out, p, flags);
+    if mfbo != 0 {
+        put32(&mut out, p + 36, (mfbo - p) as u32);
+    }
+    if mh2o != 0 {
+        put32(&mut out, p + 40, (mh2o - p) as u32);
+    }
+    out
+}
+
+/// Sub-chunks (offset, total, tag) of a root MCNK at `o` (behind the 136-byte header).
+fn mcnk_subs(b: &[u8], o: usize, tot: usize) -> Vec<(usize, usize, String)> {
+    walk_chunks(b, o + 8 + MCNK_HDR, o + tot).into_iter().map(|(a, t)| (a, t, rtag(b, a))).collect()
+}
+
+fn tex0(mono: &[u8]) -> Vec<u8> {
+    let top = top_chunks(mono);
+    let get = |t: &str| top.iter().find(|c| c.2 == t).map(|c| mono[c.0..c.0 + c.1].to_vec());
+    let mut out = get("MVER").expect("MVER");
+    for t in ["MAMP", "MTXP", "MTEX"] {
+        if let Some(c) = get(t) {
+            out.extend_from_slice(&c);
+        }
+    }
+    for (o, tot, tag) in &top {
+        if tag != "MCNK" {
+            continue;
+        }
+        let mut pay = Vec::new();
+        let subs = mcnk_subs(mono, *o, *tot);
+        for t in ["MCLY", "MCSH", "MCAL"] {
+            if let Some(s) = subs.iter().find(|s| s.2 == t) {
+                pay.extend_from_slice(&mono[s.0..s.0 + s.1]);
+            }
+        }
+        pay.extend_from_slice(&chunk("MCMT", &[1, 2, 0, 0]));
+        out.extend_from_slice(&chunk("MCNK", &pay));
+    }
+    if let Some(c) = get("MTXF") {
+        out.extend_from_slice(&c);
+    }
+    out
+}
+
+fn obj0(mono: &[u8]) -> Vec<u8> {
+    let top = top_chunks(mono);
+    let get = |t: &str| top.iter().find(|c| c.2 == t).map(|c| mono[c.0..c.0 + c.1].to_vec());
+    let mut out = get("MVER").expect("MVER");
+    for t in ["MMDX", "MMID", "MWMO", "MWID", "MDDF", "MODF"] {
+        out.extend_from_slice(&get(t).unwrap_or_else(|| panic!("adt: builder wrote no {t}")));
+    }
+    for (o, tot, tag) in &top {
+        if tag != "MCNK" {
+            continue;
+        }
+        let mut pay = Vec::new();
+        let nd = u32_at(mono, o + 8 + 16) as usize;
+        let nw = u32_at(mono, o + 8 + 56) as usize;
+        if let Some(s) = mcnk_subs(mono, *o, *tot).iter().find(|s| s.2 == "MCRF") {
+            let p = &mono[s.0 + 8..s.0 + s.1];
+            assert_eq!(p.len(), 4 * (nd + nw));
+            pay.extend_from_slice(&chunk("MCRD", &p[..4 * nd]));
+            pay.extend_from_slice(&chunk("MCRW", &p[4 * nd..]));
+        }
+        out.extend_from_slice(&chunk("MCNK", &pay));
+    }
+    out
+}
+
+// ---------------------------------------------------------------------------------------------
+// inventory
+// ---------------------------------------------------------------------------------------------
+
+/// Like seed::add_chunk_seq, but tag/csize fields are only registered for the chunks `keep`
+/// selects (an ADT has 256 MCNK siblings); the ChunkSeq still lists every chunk.
+fn add_seq_sparse(
+    s: &mut Seed,
+    seq_name: &str,
+    start: usize,
+    end: usize,
+    parents: Vec<usize>,
+    keep: &dyn Fn(&str, usize, usize) -> bool,
+) -> Vec<(usize, usize, String, usize)> {
+    let items = walk_chunks(&s.bytes, start, end);
+    let tags: Vec<String> = items.iter().map(|&(o, _)| rtag(&s.bytes, o)).collect();
+    let mut total: std::collections::HashMap<String, usize> = Default::default();
+    for t in &tags {
+        *total.entry(t.clone()).or_insert(0) += 1;
+    }
+    let mut seen: std::collections::HashMap<String, usize> = Default::default();
+    let mut out = Vec::new();
+    for (k, &(off, tot)) in items.iter().enumerate() {
+        let t = tags[k].clone();
+        let ord = {
+            let e = seen.entry(t.clone()).or_insert(0);
+            let v = *e;
+            *e += 1;
+            v
+        };
+        if keep(&t, ord, total[&t]) {
+            let nm = if seq_name == "top" { format!("{t}[{ord}]") } else { format!("{seq_name}/{t}[{ord}]") };
+            s.field_ex(off, 4, "tag", format!("{nm}.tag"), off + 8, 1, None);
+            s.field_ex(off + 4, 4, "csize", format!("{nm}.size"), off + 8, 1, None);
+        }
+        out.push((off, tot, t, ord));
+    }
+    s.seqs.push(ChunkSeq { name: seq_name.to_string(), items, parent_size_fields: parents });
+    out
+}
+
+fn first_second_last(n: usize) -> Vec<usize> {
+    let mut v = Vec::new();
+    for i in [0usize, 1, n.wrapping_sub(1)] {
+        if i < n && !v.contains(&i) {
+            v.push(i);
+        }
+    }
+    v
+}
+
+fn term_fields(s: &mut Seed, tag: &str, o: usize, tot: usize) {
+    if tot > 8 {
+        s.field_ex(o + tot - 1, 1, "term", format!("{tag}.last_nul"), o + tot, 1, None);
+        if let Some(p) = s.bytes[o + 8..o + tot].iter().position(|&b| b == 0) {
+            if o + 8 + p != o + tot - 1 {
+                s.field_ex(o + 8 + p, 1, "term", format!("{tag}.first_nul"), o + 8 + p + 1, 1, None);
+            }
+        }
+    }
+}
+
+fn mcnk_header_fields(s: &mut Seed, i: usize, o: usize, tot: usize) {
+    let h = o + 8;
+    let end = o + tot;
+    let rd = |s: &Seed, rel: usize| s.u32_at(h + rel) as usize;
+    // payload start of the sub-chunk an offset field points to (or the end of the MCNK)
+    let sub = |s: &Seed, rel: usize| {
+        let v = rd(s, rel);
+        if v != 0 && o + v + 8 <= end {
+            o + v + 8
+        } else {
+            end
+        }
+    };
+    let n = |f: &str| format!("MCNK[{i}].hdr.{f}");
+    s.field(h, 4, "index", n("flags"));
+    s.field(h + 4, 4, "index", n("ix"));
+    s.field(h + 8, 4, "index", n("iy"));
+    let b = sub(s, 28);
+    s.field_ex(h + 12, 4, "count", n("n_layers"), b, 16, None);
+    let refs = sub(s, 32);
+    s.field_ex(h + 16, 4, "count", n("n_doodad_refs"), refs, 4, None);
+    s.field_ex(h + 20, 4, "offset", n("ofs_height"), o, 1, None);
+    s.field_ex(h + 24, 4, "offset", n("ofs_normal"), o, 1, None);
+    s.field_ex(h + 28, 4, "offset", n("ofs_layer"), o, 1, None);
+    s.field_ex(h + 32, 4, "offset", n("ofs_refs"), o, 1, None);
+    s.field_ex(h + 36, 4, "offset", n("ofs_alpha"), o, 1, None);
+    let b = sub(s, 36);
+    s.field_ex(h + 40, 4, "bsize", n("size_alpha"), b, 1, None);
+    s.field_ex(h + 44, 4, "offset", n("ofs_shadow"), o, 1, None);
+    let b = sub(s, 44);
+    s.field_ex(h + 48, 4, "bsize", n("size_shadow"), b, 1, None);
+    s.field(h + 52, 4, "index", n("area_id"));
+    let nd = rd(s, 16);
+    s.field_ex(h + 56, 4, "count", n("n_map_obj_refs"), (refs + 4 * nd).min(end), 4, None);
+    s.field(h + 60, 2, "index", n("holes_low_res"));
+    s.field(h + 62, 2, "index", n("unknown_but_used"));
+    s.field_ex(h + 88, 4, "offset", n("ofs_snd_emitters"), o, 1, None);
+    let b = sub(s, 88);
+    s.field_ex(h + 92, 4, "count", n("n_snd_emitters"), b, 28, None);
+    s.field_ex(h + 96, 4, "offset", n("ofs_liquid"), o, 1, None);
+    let b = sub(s, 96);
+    s.field_ex(h + 100, 4, "bsize", n("size_liquid"), b, 1, None);
+    s.field_ex(h + 116, 4, "offset", n("ofs_mccv"), o, 1, None);
+    s.field_ex(h + 120, 4, "offset", n("ofs_mclv"), o, 1, None);
+    s.field(h + 124, 4, "index", n("unused"));
+}
+
+fn mcnk_sub_fields(s: &mut Seed, i: usize, subs: &[(usize, usize, String, usize)]) {
+    let find = |t: &str| subs.iter().find(|c| c.2 == t).map(|c| (c.0, c.1));
+    if let Some((o, tot)) = find("MCLY") {
+        let mcal = find("MCAL").map(|c| c.0 + 8).unwrap_or(o + tot);
+        let n = (tot - 8) / 16;
+        for l in 0..n.min(4) {
+            let e = o + 8 + 16 * l;
+            s.field(e, 4, "index", format!("MCNK[{i}]/MCLY[{l}].texture_id"));
+            s.field(e + 4, 4, "index", format!("MCNK[{i}]/MCLY[{l}].flags"));
+            s.field_ex(e + 8, 4, "offset", format!("MCNK[{i}]/MCLY[{l}].ofs_in_mcal"), mcal, 1, None);
+            s.field(e + 12, 4, "index", format!("MCNK[{i}]/MCLY[{l}].effect_id"));
+        }
+    }
+    for t in ["MCRF", "MCRD", "MCRW"] {
+        if let Some((o, tot)) = find(t) {
+            let n = (tot - 8) / 4;
+            for k in first_second_last(n) {
+                if k == 1 {
+                    continue;
+                }
+                s.field(o + 8 + 4 * k, 4, "index", format!("MCNK[{i}]/{t}[{k}]"));
+            }
+        }
+    }
+    if let Some((o, tot)) = find("MCSE") {
+        if tot >= 8 + 28 {
+            s.field(o + 8, 4, "index", format!("MCNK[{i}]/MCSE[0].sound_entry_id"));
+        }
+    }
+    if let Some((o, tot)) = find("MCBB") {
+        if tot >= 8 + 20 {
+            let e = o + 8;
+            s.field(e, 4, "index", format!("MCNK[{i}]/MCBB[0].mbmh_index"));
+            s.field(e + 4, 4, "count", format!("MCNK[{i}]/MCBB[0].index_count"));
+            s.field(e + 8, 4, "index", format!("MCNK[{i}]/MCBB[0].index_first"));
+            s.field(e + 12, 4, "count", format!("MCNK[{i}]/MCBB[0].vertex_count"));
+            s.field(e + 16, 4, "index", format!("MCNK[{i}]/MCBB[0].vertex_first"));
+        }
+    }
+}
+
+fn inventory(s: &mut Seed, mcnk_has_header: bool) {
+    let len = s.bytes.len();
+    let keep = |t: &str, ord: usize, total: usize| t != "MCNK" || ord < 2 || ord + 1 == total;
+    let top = add_seq_sparse(s, "top", 0, len, vec![], &keep);
+    let find = |t: &str| top.iter().find(|c| c.2 == t).map(|c| (c.0, c.1));
+    let pay = |t: &str| find(t).map(|c| c.0 + 8);
+
+    if let Some((o, _)) = find("MVER") {
+        s.field(o + 8, 4, "index", "MVER.version");
+    }
+    if let Some((o, tot)) = find("MHDR") {
+        let p = o + 8;
+        s.field(p, 4, "index", "MHDR.flags");
+        let names = ["mcin", "mtex", "mmdx", "mmid", "mwmo", "mwid", "mddf", "modf", "mfbo", "mh2o", "mtxf"];
+        for (k, nm) in names.iter().enumerate() {
+            if p + 4 * (k + 1) + 4 <= o + tot {
+                s.field_ex(p + 4 * (k + 1), 4, "offset", format!("MHDR.ofs_{nm}"), p, 1, None);
+            }
+        }
+    }
+    let mcnks: Vec<(usize, usize)> = top.iter().filter(|c| c.2 == "MCNK").map(|c| (c.0, c.1)).collect();
+    if let Some((o, tot)) = find("MCIN") {
+        let n = (tot - 8) / 16;
+        for i in first_second_last(n) {
+            let e = o + 8 + 16 * i;
+            let target = s.u32_at(e) as usize;
+            s.field_ex(e, 4, "offset", format!("MCIN[{i}].offset"), 0, 1, None);
+            s.field_ex(e + 4, 4, "bsize", format!("MCIN[{i}].mcnk_size"), (target + 8).min(len), 1, None);
+            s.field(e + 8, 4, "index", format!("MCIN[{i}].flags"));
+            s.field(e + 12, 4, "index", format!("MCIN[{i}].async_id"));
+        }
+    }
+    for t in ["MTEX", "MMDX", "MWMO"] {
+        if let Some((o, tot)) = find(t) {
+            term_fields(s, t, o, tot);
+        }
+    }
+    for (t, strs) in [("MMID", "MMDX"), ("MWID", "MWMO")] {
+        if let Some((o, tot)) = find(t) {
+            let base = pay(strs).unwrap_or(o + tot);
+            for i in first_second_last((tot - 8) / 4) {
+                s.field_ex(o + 8 + 4 * i, 4, "stroff", format!("{t}[{i}]"), base, 1, None);
+            }
+        }
+    }
+    if let Some((o, tot)) = find("MDDF") {
+        let n = (tot - 8) / 36;
+        for i in first_second_last(n) {
+            if i == 1 {
+                continue;
+            }
+            let e = o + 8 + 36 * i;
+            s.field(e, 4, "index", format!("MDDF[{i}].name_id"));
+            s.field(e + 4, 4, "index", format!("MDDF[{i}].unique_id"));
+            s.field(e + 32, 2, "index", format!("MDDF[{i}].scale"));
+            s.field(e + 34, 2, "index", format!("MDDF[{i}].flags"));
+        }
+    }
+    if let Some((o, tot)) = find("MODF") {
+        let n = (tot - 8) / 64;
+        for i in first_second_last(n) {
+            if i == 1 && n > 2 {
+                continue;
+            }
+            let e = o + 8 + 64 * i;
+            s.field(e, 4, "index", format!("MODF[{i}].name_id"));
+            s.field(e + 4, 4, "index", format!("MODF[{i}].unique_id"));
+            s.field(e + 56, 2, "index", format!("MODF[{i}].flags"));
+            s.field(e + 58, 2, "index", format!("MODF[{i}].doodad_set"));
+            s.field(e + 60, 2, "index", format!("MODF[{i}].name_set"));
+            s.field(e + 62, 2, "index", format!("MODF[{i}].scale"));
+        }
+    }
+    if let Some((o, tot)) = find("MH2O") {
+        let p = o + 8;
+        let end = o + tot;
+        let nh = ((tot - 8) / 12).min(256);
+        let liquid: Vec<usize> = (0..nh).filter(|&k| s.u32_at(p + 12 * k + 4) != 0).collect();
+        let mut pick = Vec::new();
+        for &k in liquid.iter().take(2) {
+            pick.push(k);
+        }
+        if let Some(&l) = liquid.last() {
+            if !pick.contains(&l) {
+                pick.push(l);
+            }
+        }
+        if let Some(e) = (0..nh).find(|k| !liquid.contains(k)) {
+            pick.push(e);
+        }
+        for (rank, &k) in pick.iter().enumerate() {
+            let e = p + 12 * k;
+            let oi = s.u32_at(e) as usize;
+            s.field_ex(e, 4, "offset", format!("MH2O[{k}].ofs_instances"), p, 1, None);
+            s.field_ex(e + 4, 4, "count", format!("MH2O[{k}].layer_count"), (p + oi).min(end), 24, None);
+            s.field_ex(e + 8, 4, "offset", format!("MH2O[{k}].ofs_attributes"), p, 1, None);
+            if oi != 0 && p + oi + 24 <= end && rank < 3 {
+                let q = p + oi;
+                let nm = |f: &str| format!("MH2O[{k}].inst[0].{f}");
+                s.field(q, 2, "index", nm("liquid_type"));
+                s.field(q + 2, 2, "index", nm("lvf"));
+                s.field(q + 12, 1, "index", nm("x_offset"));
+                s.field(q + 13, 1, "index", nm("y_offset"));
+                s.field(q + 14, 1, "count", nm("width"));
+                s.field(q + 15, 1, "count", nm("height"));
+                s.field_ex(q + 16, 4, "offset", nm("ofs_exists_bitmap"), p, 1, None);
+                s.field_ex(q + 20, 4, "offset", nm("ofs_vertex_data"), p, 1, None);
+            }
+        }
+    }
+    if let Some((o, tot)) = find("MTXF") {
+        for i in first_second_last((tot - 8) / 4) {
+            if i != 1 {
+                s.field(o + 8 + 4 * i, 4, "index", format!("MTXF[{i}]"));
+            }
+        }
+    }
+    if let Some((o, tot)) = find("MTXP") {
+        if tot >= 8 + 16 {
+            s.field(o + 8, 4, "index", "MTXP[0].flags");
+        }
+    }
+    if let Some((o, tot)) = find("MAMP") {
+        if tot >= 8 + 4 {
+            s.field(o + 8, 4, "index", "MAMP.amplifier");
+        }
+    }
+    if let Some((o, tot)) = find("MBMH") {
+        if tot >= 8 + 28 {
+            let e = o + 8;
+            let mbmi = pay("MBMI").unwrap_or(o + tot);
+            let mbnv = pay("MBNV").unwrap_or(o + tot);
+            s.field(e, 4, "index", "MBMH[0].map_object_id");
+            s.field(e + 4, 4, "index", "MBMH[0].texture_id");
+            s.field_ex(e + 12, 4, "count", "MBMH[0].mbmi_count", mbmi, 2, None);
+            s.field_ex(e + 16, 4, "count", "MBMH[0].mbnv_count", mbnv, 44, None);
+            s.field_ex(e + 20, 4, "index", "MBMH[0].mbmi_start", mbmi, 2, None);
+            s.field_ex(e + 24, 4, "index", "MBMH[0].mbnv_start", mbnv, 44, None);
+        }
+    }
+    if let Some((o, tot)) = find("MBMI") {
+        for i in first_second_last((tot - 8) / 2) {
+            if i != 1 {
+                s.field(o + 8 + 2 * i, 2, "index", format!("MBMI[{i}]"));
+            }
+        }
+    }
+    // MCNK 0, 1 and the last one: header fields and the nested sub-chunk sequence
+    for i in first_second_last(mcnks.len()) {
+        let (o, tot) = mcnks[i];
+        let all = |_: &str, _: usize, _: usize| true;
+        if mcnk_has_header {
+            if tot < 8 + MCNK_HDR {
+                continue;
+            }
+            mcnk_header_fields(s, i, o, tot);
+            let subs = add_seq_sparse(s, &format!("MCNK[{i}]"), o + 8 + MCNK_HDR, o + tot, vec![o + 4], &all);
+            mcnk_sub_fields(s, i, &subs);
+        } else {
+            let subs = add_seq_sparse(s, &format!("MCNK[{i}]"), o + 8, o + tot, vec![o + 4], &all);
+            mcnk_sub_fields(s, i, &subs);
+        }
+    }
 }
 
 pub fn build(name: &str) -> Seed {
-    wverif_common::tool_error(&format!("adt: unknown seed {name}"))
+    let sp = spec(name);
+    let mono = monolithic(&sp);
+    let (bytes, hdr) = match name {
+        "cata-split-root" => (split_root(&mono), true),
+        "mop-tex0" => (tex0(&mono), false),
+        "cata-obj0" => (obj0(&mono), false),
+        _ => (mono, true),
+    };
+    let mut s = Seed::new("adt", name, bytes);
+    inventory(&mut s, hdr);
+    s
 }
 
-pub fn run(_r: &mut Runner, _bytes: &[u8], _aux: &Aux) {}
+pub fn run(r: &mut Runner, bytes: &[u8], _aux: &Aux) {
+    r.call("parse_adt", || wow_adt::parse_adt(&mut Cursor::new(bytes)).map(|_| ()).map_err(errname));
+}
